@@ -65,6 +65,7 @@ type FuncContract struct {
 	NoSafety bool
 	Assume   []*Clause // assumptions about the environment (listed in evidence)
 	Bits     int
+	Cases    [][]*Clause // case splits applied to every postcondition obligation (each list must be exhaustive)
 }
 
 type Lemma struct {
@@ -337,6 +338,17 @@ func (cs *Contracts) parseFile(file, pkg, src string) error {
 			fc.NoSafety = true
 		case "opaque":
 			fc.Opaque = append(fc.Opaque, strings.Fields(strings.ReplaceAll(r.text, ",", " "))...)
+		case "cases":
+			// cases a | b | c   : the alternatives are contract expressions
+			var alts []*Clause
+			for _, part := range splitTopLevelBars(r.text) {
+				e, err := ParseSpec(part)
+				if err != nil {
+					return fmt.Errorf("%s:%d: %v in %q", file, r.line, err, part)
+				}
+				alts = append(alts, &Clause{Kind: "case", Text: part, Expr: e, File: file, Line: r.line})
+			}
+			fc.Cases = append(fc.Cases, alts)
 		case "end":
 			loop = nil
 		case "loop":
@@ -437,6 +449,31 @@ func (cs *Contracts) parseFile(file, pkg, src string) error {
 		}
 	}
 	return nil
+}
+
+// splitTopLevelBars splits at single '|' characters outside parentheses (|| is the boolean operator).
+func splitTopLevelBars(s string) []string {
+	var out []string
+	depth, start := 0, 0
+	for i := 0; i < len(s); i++ {
+		switch s[i] {
+		case '(', '[':
+			depth++
+		case ')', ']':
+			depth--
+		case '|':
+			if i+1 < len(s) && s[i+1] == '|' {
+				i++
+				continue
+			}
+			if depth == 0 {
+				out = append(out, strings.TrimSpace(s[start:i]))
+				start = i + 1
+			}
+		}
+	}
+	out = append(out, strings.TrimSpace(s[start:]))
+	return out
 }
 
 func (fc *FuncContract) Key() string { return fc.Pkg + "." + fc.Name }
